@@ -46,6 +46,9 @@ def atoms(seed):
         ("ua-over0", 9, 3, UA128, b""),
         ("ua-over1", 9, 3, UA128, b"!"),
         ("ua-over40", 9, 3, UA128, b"0123456789" * 4),
+        # User-Agent records longer than the 128-byte field: nothing special about them (no continuation)
+        ("ua-256full", 9, 3, bytes((0x61 + (i % 26)) for i in range(256))),
+        ("ua-200", 9, 3, bytes((0x61 + (i % 26)) for i in range(200))),
         ("bof2", 16, 1, b"\x00\x02"),
         ("bof-2021", 16, 1, b"\x07\xe5"),  # same index, a value outside the allocator range: still the same setting
         ("sysc", 17, 1, b"\x00\x0c"),
@@ -76,7 +79,7 @@ def atoms(seed):
     return A
 
 
-CORE = ("proto8", "wmff", "ua-short", "ua-over1", "inj36short", "wmh36ptr", "wmh36int", "gap75", "noneffff", "dup-proto", "bof2", "bof-2021", "ptr256", "short-len4")
+CORE = ("proto8", "wmff", "ua-short", "ua-over1", "inj36short", "wmh36ptr", "wmh36int", "gap75", "noneffff", "dup-proto", "bof2", "bof-2021", "ptr256", "short-len4", "ua-256full")
 ENDINGS = ("eof", "term", "term+garbage", "pad4096", "lone-byte", "trunc-record")
 
 
